@@ -419,6 +419,31 @@ func Explore(c *Ctx, o Oracle) int {
 	n := o.NCases(c.Tier)
 	var mu sync.Mutex
 	cands := map[string][]candidate{}
+	// regression corpus first: the minimised scenarios of every violation these checks have
+	// reported before (on the tree as given, later repaired, and on deliberately broken
+	// variants). Each is a complete scenario (disk image, argv, schedule); it is judged like a
+	// generated case, so a defect that comes back is reported with its current signature.
+	if files, _ := filepath.Glob(filepath.Join(c.Verif, "regress", c.Prop+"-*.json")); len(files) > 0 {
+		sort.Strings(files)
+		c.Pool.ParallelFor(len(files), func(w *Worker, i int) {
+			rf, err := loadReplay(files[i])
+			if err != nil {
+				infra("regression scenario %s: %v", files[i], err)
+			}
+			cs := &rf.Case
+			cs.Index = -1 - i
+			c.Stats.Inc("regression_scenarios_replayed")
+			if f := o.Judge(c, w, cs); f != nil {
+				if cs.Meta == nil {
+					cs.Meta = map[string]string{}
+				}
+				cs.Meta["regression_scenario"] = filepath.Base(files[i])
+				mu.Lock()
+				cands[f.Sig] = append(cands[f.Sig], candidate{cs, f})
+				mu.Unlock()
+			}
+		})
+	}
 	c.Pool.ParallelFor(n, func(w *Worker, i int) {
 		cs := o.Make(c, i)
 		if cs == nil {
